@@ -4,7 +4,9 @@
    PARTIAL: log file contents, the mail transport and the lock file are observed
    end to end by the harness; the lock/second-invocation logic is a small separate
    model of lock_acquire / trap_exit. *)
-From Robsd Require Import Orch.OrchSpec Orch.OrchProofs Orch.AccountProofs Orch.ResumeProofs Orch.ResumeSpec.
+From Robsd Require Import Orch.OrchSpec Orch.OrchProofs Orch.AccountProofs Orch.ResumeProofs Orch.ResumeSpec Orch.StepBridge.
+From Robsd Require Import Step.StepSpec Step.StepRows Step.StepWrite Step.StepLex Base.DecimalProofs.
+From RobsdGen Require Import Gen_Step.
 Local Open Scope Z_scope.
 
 (* each step that ran and finished has exactly one record, carrying its real
@@ -75,3 +77,19 @@ Example C11_example :
   sfile_ s = [mkrow 1 (n 97%N) 0 0; mkrow 2 (n 112%N) 3 0; mkrow 3 END 0 0] /\
   e_report (trap_exit (mode s) (sfile_ s) true) = true.
 Proof. vm_compute. repeat split; reflexivity. Qed.
+
+(* the record the orchestrator writes through util.sh step_write / robsd-step -W denotes, in the
+   dictionary specification of the step file (C01), exactly one ordered upsert of the row
+   (id, name, exit, skip) - which is how the transition system above models a record write *)
+Theorem C11_record_write_is_row_upsert : forall (s : astate) id name exit duration delta log user time skip,
+  alist_find id s = None ->
+  (id_min <= id <= id_max) -> id <> 0 ->
+  i64 exit -> i64 duration -> i64 delta -> i64 time -> i64 skip ->
+  representable (nth 1 fields (mkfdef [] FStr 1%nat false [])) name = true ->
+  representable (nth 5 fields (mkfdef [] FStr 5%nat true [])) log = true ->
+  representable (nth 6 fields (mkfdef [] FStr 6%nat false [])) user = true ->
+  exists r, spec_write s (render_Z id) (step_write_kvs name exit duration delta log user (Some time) skip)
+            = Some (alist_put id r s) /\
+            map proj_row (alist_put id r s) = upsert (mkrow id name exit skip) (map proj_row s).
+Proof. exact step_write_row_upsert. Qed.
+Print Assumptions C11_record_write_is_row_upsert.
